@@ -70,6 +70,17 @@ abbrev VarDict := List (Bytes × VdVal)   -- later entries shadow earlier ones w
 def vdInsert (d : VarDict) (k : Bytes) (v : VdVal) : VarDict := (d.filter (fun p => p.1 != k)) ++ [(k, v)]
 def vdGet (d : VarDict) (k : Bytes) : Option VdVal := (d.find? (fun p => p.1 == k)).map (·.2)
 
+/-- the typed value of a dictionary entry (`match value_type`): short typed payloads make `read_u32`/`read_u64` panic -/
+def vdTyped (ty : UInt8) (vb : Bytes) : Outcome VdVal :=
+  if ty = 0x04 then (readU32 "VariantDictionary::parse:index" vb).bind (fun n => .ok (VdVal.u32 n))
+  else if ty = 0x05 then (readU64 "VariantDictionary::parse:index" vb).bind (fun n => .ok (VdVal.u64 n))
+  else if ty = 0x08 then .ok (VdVal.bool (vb != [0]))
+  else if ty = 0x0c then (readU32 "VariantDictionary::parse:index" vb).bind (fun n => .ok (VdVal.i32 n))
+  else if ty = 0x0d then (readU64 "VariantDictionary::parse:index" vb).bind (fun n => .ok (VdVal.i64 n))
+  else if ty = 0x18 then .ok (VdVal.str vb)
+  else if ty = 0x42 then .ok (VdVal.bytes vb)
+  else .err .integrity
+
 def vdLoop : Nat → Bytes → VarDict → Outcome (VarDict × Bytes)
   | 0, rest, d => .ok (d, rest)
   | fuel + 1, rest, d =>
@@ -90,15 +101,7 @@ def vdLoop : Nat → Bytes → VarDict → Outcome (VarDict × Bytes)
         if r4.length < vlen then .panic "VariantDictionary::parse:index" else
         let vb := r4.take vlen
         let r5 := r4.drop vlen
-        let v ← (
-          if ty = 0x04 then (readU32 "VariantDictionary::parse:index" vb).bind (fun n => .ok (VdVal.u32 n))
-          else if ty = 0x05 then (readU64 "VariantDictionary::parse:index" vb).bind (fun n => .ok (VdVal.u64 n))
-          else if ty = 0x08 then .ok (VdVal.bool (vb != [0]))
-          else if ty = 0x0c then (readU32 "VariantDictionary::parse:index" vb).bind (fun n => .ok (VdVal.i32 n))
-          else if ty = 0x0d then (readU64 "VariantDictionary::parse:index" vb).bind (fun n => .ok (VdVal.i64 n))
-          else if ty = 0x18 then .ok (VdVal.str vb)
-          else if ty = 0x42 then .ok (VdVal.bytes vb)
-          else .err .integrity)
+        let v ← vdTyped ty vb
         vdLoop fuel r5 (vdInsert d key v)
 
 /-- `VariantDictionary::parse` -/
